@@ -129,10 +129,12 @@ def judge(case, out, answers):
             return {"agree": True, "holds": True, "diff": "", "nontrivial": False, "tags": tags + ["refused"]}
         return {"agree": False, "holds": False, "diff": "algorithm failed: " + out["run_err"], "nontrivial": False,
                 "tags": tags + ["run-error:" + err]}
-    holds = bool(answers[0]) and out["types_ok"]
+    holds = bool(answers[0]) and out["types_ok"] and out["views_ok"]
     diff = ""
     if not out["types_ok"]:
         diff = "element identity / type not preserved"
+    if not out["views_ok"]:
+        diff += " positions / domain / size of a consensus ranking disagree with its buckets"
     raw = case["dataset"]
     n = len(lib.dataset_elems(raw))
     nontrivial = n >= 3 and any(sum(len(b) for b in r) < n for r in raw)
